@@ -99,7 +99,7 @@ theorem isSubtype_eq_sub (s : SchemaD) : ∀ (t u : Ty), isAbstract s u.base = f
     | list j =>
       rw [isSubtype]
       by_cases e : i = j
-      · subst e; simp [sub_refl']
+      · subst e; simp [sub_refl_in]
       · have : (Ty.list i == Ty.list j) = false := by simp [e]
         simp [this, sub, ih j hab]
     | nonNull b =>
@@ -120,7 +120,7 @@ theorem isSubtype_eq_sub (s : SchemaD) : ∀ (t u : Ty), isAbstract s u.base = f
     | nonNull b =>
       rw [isSubtype]
       by_cases e : a = b
-      · subst e; simp [sub_refl']
+      · subst e; simp [sub_refl_in]
       · have : (Ty.nonNull a == Ty.nonNull b) = false := by simp [e]
         simp [this, sub, ih b hab]
 private theorem notAbstract_of_in {s : SchemaD} {t : Ty} (h : isInputTy s t = true) : isAbstract s t.base = false := by
